@@ -41,9 +41,10 @@ def main():
     try:
         tree = os.path.join(scratch, "repo")
         subprocess.run(["rsync", "-a", "--exclude", ".git", "--exclude", "__pycache__", "/repo/", tree + "/"], check=True)
-        # demos refer to their own worktree path: point them at the scratch tree
-        demo_text = open(demo).read().replace(f"/tmp/{prefix}-{prop}/out", scratch).replace(f"/tmp/{prefix}-{prop}", tree)
-        demo_local = os.path.join(scratch, "demo.py")
+        # demos refer to their own worktree path (and may derive paths from __file__): mirror the layout <tree>/out/demoN.py
+        os.makedirs(os.path.join(tree, "out"), exist_ok=True)
+        demo_text = open(demo).read().replace(f"/tmp/{prefix}-{prop}", tree)
+        demo_local = os.path.join(tree, "out", f"demo{n}.py")
         open(demo_local, "w").write(demo_text)
         env = {"PYTHONPATH": tree}
         rc0, out0 = run([PY, demo_local], scratch, env)
